@@ -130,6 +130,43 @@ def near_level_sweep(run, cache):
                 run.violation(f"matrix->{to}/frommat/valid/near_level", "result is not a valid representative", {"matrix": Rs[k].tolist(), "param_out": P[:, k].tolist()})
 
 
+def near_axis_sweep(run, cache):
+    """rotations of 130 .. 180 deg about an axis that is a coordinate axis up to a component of 1e-4 .. 1e-10: trace(R) <= 0,
+    one quaternion component dominates and another is tiny but not zero, so a pivot chosen one rank too low divides a
+    cancelled difference by that tiny component.  (Integers of this shape do not fit TLC's 32 bits; the expectation is the
+    matrix itself.)  Also used by C01 (from_Matrix is a right inverse of to_Matrix)."""
+    Rs, qs = [], []
+    for th in (2.3, 2.9, math.pi, 3.3):
+        for i in range(3):
+            for j in range(3):
+                if i == j:
+                    continue
+                for eps in (1e-4, 1e-6, -1e-8, 1e-10):
+                    ax = np.zeros(3); ax[i] = 1.0; ax[j] = eps
+                    ax /= np.linalg.norm(ax)
+                    w, (x, y, z) = math.cos(th / 2), math.sin(th / 2) * ax
+                    R = np.array([[1 - 2 * (y * y + z * z), 2 * (x * y - w * z), 2 * (x * z + w * y)],
+                                  [2 * (x * y + w * z), 1 - 2 * (x * x + z * z), 2 * (y * z - w * x)],
+                                  [2 * (x * z - w * y), 2 * (y * z + w * x), 1 - 2 * (x * x + y * y)]])
+                    Rs.append(R); qs.append([w, x, y, z])
+    A = np.array([R.flatten(order="F") for R in Rs]).T
+    for to in ("quat", "mrp"):
+        built = cache.get(("frommat", "matrix", to), builder("frommat", "matrix", to))
+        if isinstance(built, tuple):
+            continue
+        M, P = batch_call(built, [A])[:2]
+        run.count("evaluations", A.shape[1]); run.count("near_axis_sweep", A.shape[1])
+        with np.errstate(invalid="ignore"):
+            d = np.max(np.abs(M - A), axis=0)
+            v = valid_param(to, P)
+        for k in range(A.shape[1]):
+            if not (d[k] <= TOL):
+                run.violation(f"matrix->{to}/frommat/rotation/near_axis", "converted element has a different rotation matrix",
+                              {"matrix": Rs[k].tolist(), "quaternion": qs[k], "param_out": P[:, k].tolist(), "err": float(d[k])})
+            elif not (v[k] <= 1e-9) and not (to == "mrp" and abs(qs[k][0]) < 1e-9):      # |r| = 1 at exactly 180 deg
+                run.violation(f"matrix->{to}/frommat/valid/near_axis", "result is not a valid representative", {"matrix": Rs[k].tolist(), "param_out": P[:, k].tolist()})
+
+
 def main():
     tier = sys.argv[1] if len(sys.argv) > 1 else "quick"
     run = Run(PID, tier)
@@ -151,6 +188,9 @@ def main():
         raise MachineryError(f"second-process prelude failed: {ex}: {pr.stderr[-400:]}")
     if "--replay" in sys.argv:
         d = json.load(open(sys.argv[sys.argv.index("--replay") + 1]))
+        if "tv" not in d["data"]:            # a sweep finding (no TLC vector): re-run the sweeps
+            near_level_sweep(run, cache); near_axis_sweep(run, cache)
+            return run.finish()
         tv = d["data"]["tv"]
         replay_group(run, cache, (tv["op"], tv["from"], tv["to"]), [tv])
         return run.finish()
@@ -171,6 +211,7 @@ def main():
         run.sample({"op": key[0], "from": key[1], "to": key[2], "q": tvs[len(tvs) // 3]["q"]}, limit=6)
         replay_group(run, cache, key, tvs)
     near_level_sweep(run, cache)
+    near_axis_sweep(run, cache)
     pairs = {(f, t) for (op, f, t) in grp if op == "conv"}
     if len(pairs) != 12 or shep != {1, 2, 3, 4} or not {"pole", "band", "nearband", "pi", "wneg", "nearid", "nearpi"} <= set(cells):
         raise MachineryError(f"vacuous coverage: pairs={len(pairs)} shepperd={shep} cells={sorted(cells)}")
